@@ -8,6 +8,9 @@ evaluated here), vs the Lean Spec, vs the Lean Model):
      same simulator state (the VCD writer's path), and a sample through `Assert(0, Format(...))` messages;
  (b) rejected / malformed specs: `Format(...)` must raise ValueError for the reason the model predicts;
  (c) literal text with braces, unicode, mixed chunks, Print(sep=, end=), expression arguments;
+ (c') Print(*args, sep=, end=) with 1..5 arguments, some formatting to nothing ("", Format(""), Format("{}", "")) in
+     first / middle / last position, sep / end defaulted or given: the Spec text of every argument alone, joined by
+     CPython's own print(*texts, sep=, end=), is the expectation for the simulation's stdout and for eval_format;
  (d) Print / Assert / Assume under Module-DSL control flow in posedge / negedge domains with no reset,
      synchronous reset and asynchronous reset: which events emit, which event stops the simulation and
      with which message;
@@ -465,6 +468,118 @@ def chunks_job(args):
             impl.append(r)
             tbres.append(res.get("tb", ("err", "norun")))
         case.update(envs=envs, impl=impl, tb=tbres, shapes=[(len(s), s.shape().signed) for s in sigs])
+        out.append(case)
+    return out
+
+
+# ------------------------------------------------------------------------------------------------
+# (c') Print(*args, sep=, end=): how the arguments are joined
+
+JOIN_SEPS = [None, "", "+", ", ", " ", "{", "\n"]       # None: not passed (Python's default, one blank)
+JOIN_ENDS = [None, "", ";", "}\n", "\n\n", "+"]         # None: not passed (a newline)
+JOIN_PATTERNS = ["first", "first2", "middle", "last", "all", "none", "random", "random"]
+
+
+def join_job(args):
+    """Print statements with 1..5 positional arguments (strings, Formats, values), some of which format to nothing
+    (`""`, `Format("")`, `Format("{}", "")`) at the first / middle / last position, with sep / end given or defaulted.
+    Reported per case: the chunks of the message amaranth built, and *per argument* the chunks of that argument alone
+    (a string is its own text, a value is `{}` of the value, a Format is its chunks) - the judge joins the texts of the
+    arguments with CPython's own print()."""
+    seed, n_cases, n_env = args
+    job_args = list(args)
+    from amaranth.hdl import Signal, Module, Format, Print, Period, Value
+    from amaranth.sim import Simulator
+    from amaranth.sim._pyeval import eval_format
+    from .. import gen_expr
+    rng = random.Random(seed)
+    out = []
+    for _ in range(n_cases):
+        sigs = [Signal(gen_expr.rand_shape(rng, 9), name=f"i{k}") for k in range(rng.randint(1, 3))]
+        if rng.random() < 0.3:
+            sigs.append(Signal(rng.choice([8, 16]), name="str"))
+        sigidx = {id(s): i for i, s in enumerate(sigs)}
+        g = gen_expr.Gen(rng, sigs, maxw=8)
+        case = {"seed": seed, "job_args": job_args, "sigs": [(s.name, len(s), s.shape().signed) for s in sigs]}
+        try:
+            n = rng.choice([1, 2, 2, 3, 3, 4, 5])
+            pattern = rng.choice(JOIN_PATTERNS)
+            empty = {"first": {0}, "first2": {0, 1}, "middle": set(range(1, n - 1)) or {0}, "last": {n - 1}, "all": set(range(n)),
+                     "none": set(), "random": {k for k in range(n) if rng.random() < 0.4}}[pattern]
+            empty = {k for k in empty if k < n}
+            pargs, kinds, argchunks = [], [], []
+            for k in range(n):
+                if k in empty:
+                    kind = rng.choice(["empty-str", "empty-str", "empty-format", "format-of-empty-str"])
+                    a = {"empty-str": "", "empty-format": Format(""), "format-of-empty-str": Format("{}", "")}[kind]
+                else:
+                    kind = rng.choice(["str", "value", "value", "format", "format"])
+                    if kind == "str":
+                        a = rng.choice(["t", "{", "}x", "a b", "+", ", ", " ", "é"])
+                    elif kind == "value":
+                        a = rng.choice(sigs[:3]) if rng.random() < 0.5 else g.expr(1)
+                    else:
+                        a = rand_format(rng, g, 2)
+                        if not a._chunks:
+                            kind = "empty-format"
+                pargs.append(a)
+                kinds.append(kind)
+                if isinstance(a, str):
+                    argchunks.append([a] if a else [])
+                elif isinstance(a, Format):
+                    argchunks.append(list(a._chunks))
+                else:
+                    argchunks.append([(Value.cast(a), "")])
+            sep, end = rng.choice(JOIN_SEPS), rng.choice(JOIN_ENDS)
+            kw = {}
+            if sep is not None:
+                kw["sep"] = sep
+            if end is not None:
+                kw["end"] = end
+            stmt = Print(*pargs, **kw)
+            fmt = stmt.message
+            case.update(kinds=kinds, pattern=pattern, sep=sep, end=end,
+                        chunks=ser_chunks(fmt._chunks, sigidx), argchunks=[ser_chunks(c, sigidx) for c in argchunks],
+                        repr=("Print(" + ", ".join(repr(a)[:80] for a in pargs) + "".join(f", {k}={v!r}" for k, v in kw.items()) + ")"),
+                        brace=any((not isinstance(ch, str)) and ("{" in ch[1] or "}" in ch[1]) for ch in fmt._chunks))
+        except Exception as e:
+            case["gen_error"] = (errkind(e), repr(e)[:200])
+            out.append(case)
+            continue
+        envs, impl, tbres = [], [], []
+        for _e in range(n_env):
+            env = []
+            for s_ in sigs:
+                if s_.name == "str":
+                    env.append(int.from_bytes(rng.choice([b"A", b"zA", b"", b"{", b" "])[:len(s_) // 8], "little"))
+                else:
+                    env.append(gen_expr.rand_value(rng, s_.shape()))
+            m = Module()
+            m.d.sync += stmt
+            sim = Simulator(m)
+            sim.add_clock(Period(MHz=1))
+            res = {}
+
+            async def tb(ctx):
+                for s_, v in zip(sigs, env):
+                    ctx.set(s_, v)
+                try:
+                    res["tb"] = ("ok", eval_format(sim._engine._state, fmt))
+                except Exception as e:
+                    res["tb"] = ("err", errkind(e))
+                await ctx.tick()
+            sim.add_testbench(tb)
+            buf = io.StringIO()
+            try:
+                with contextlib.redirect_stdout(buf):
+                    sim.run()
+                r = ("ok", buf.getvalue())
+            except Exception as e:
+                r = ("err", errkind(e))
+            envs.append(env)
+            impl.append(r)
+            tbres.append(res.get("tb", ("err", "norun")))
+        case.update(envs=envs, impl=impl, tb=tbres, shapes=[(len(s_), s_.shape().signed) for s_ in sigs])
         out.append(case)
     return out
 
@@ -1196,6 +1311,99 @@ class _Shape:
         self.width, self.signed = w, sg
 
 
+def run_join(chk, quick):
+    rng = chk.rng
+    jobs = [(rng.getrandbits(48), 40, 2) for _ in range(32 if quick else 600)]
+    with ProcessPoolExecutor(max_workers=min(16, os.cpu_count() or 4)) as ex:
+        for cases in ex.map(join_job, jobs):
+            judge_join(chk, cases)
+
+
+def python_print(texts, sep, end):
+    """CPython's own print() of the already formatted arguments"""
+    buf = io.StringIO()
+    kw = {}
+    if sep is not None:
+        kw["sep"] = sep
+    if end is not None:
+        kw["end"] = end
+    print(*texts, file=buf, **kw)
+    return buf.getvalue()
+
+
+def judge_join(chk, cases):
+    live = [c for c in cases if "gen_error" not in c]
+    for c in cases:
+        if "gen_error" in c:
+            chk.hist("join_generator_error", c["gen_error"][0])
+    reqs, index = [], []
+    for ci, c in enumerate(live):
+        ctx = ser_ctx([_Shape(w, sg) for w, sg in c["shapes"]])
+        envs = " ".join(common.ser_env(e) for e in c["envs"])
+        reqs.append(f"(chunks {ctx} ({c['chunks']}) {envs})")
+        index.append((ci, None))
+        for k, ac in enumerate(c["argchunks"]):
+            if ac:                       # an argument without chunks formats to ""
+                reqs.append(f"(chunks {ctx} ({ac}) {envs})")
+                index.append((ci, k))
+    resps = chk.driver.ask(reqs)
+    whole, perarg = {}, {}
+    for (ci, k), req, resp in zip(index, reqs, resps):
+        parts = resp.split(" ; ")
+        if parts[0] != "chunks":
+            chk.not_shown("driver could not evaluate a join case", {"stream": "join", "request": req[:800], "response": resp[:300],
+                                                                    "job_args": live[ci]["job_args"]})
+            parts = None
+        if k is None:
+            whole[ci] = (req, parts)
+        else:
+            perarg[(ci, k)] = parts
+    for ci, c in enumerate(live):
+        req, parts = whole[ci]
+        if parts is None or any(perarg.get((ci, k), 1) is None for k in range(len(c["argchunks"]))):
+            continue
+        base = {"stream": "join", "print": c["repr"], "sep": c["sep"], "end": c["end"], "argument_kinds": c["kinds"], "sigs": c["sigs"],
+                "request": req[:1500], "job_args": c["job_args"], "brace": c["brace"]}
+        chk.hist("join_arguments", len(c["kinds"]))
+        chk.hist("join_sep", "default" if c["sep"] is None else repr(c["sep"]))
+        chk.hist("join_end", "default" if c["end"] is None else repr(c["end"]))
+        chk.hist("join_empty_argument_pattern", c["pattern"])
+        n = len(c["kinds"])
+        for k, kd in enumerate(c["kinds"]):
+            if kd in ("empty-str", "empty-format", "format-of-empty-str"):
+                pos = "only" if n == 1 else "first" if k == 0 else "last" if k == n - 1 else "middle"
+                chk.hist("join_empty_argument_at", pos)
+                chk.hist("join_empty_argument_kind", kd)
+        for j, (env, impl, tbr) in enumerate(zip(c["envs"], c["impl"], c["tb"])):
+            d = common.kv(parts[1 + j])
+            texts, failed = [], None
+            for k, ac in enumerate(c["argchunks"]):
+                if not ac:
+                    texts.append("")
+                    continue
+                r = unhx(common.kv(perarg[(ci, k)][1 + j])["s"])
+                if r[0] != "ok":
+                    failed = r
+                    break
+                texts.append(r[1])
+            b = dict(base, env=env)
+            if failed is None:
+                orc = ("ok", python_print(texts, c["sep"], c["end"]))
+                b["argument_texts"] = texts
+                chk.hist("join_oracle", "print(*texts, sep, end) by CPython")
+            else:
+                orc = None                   # an argument that cannot be formatted: the whole message by the Spec
+                chk.hist("join_oracle", "an argument raises: Spec text of the whole message")
+            chk.count(2)
+            ok = judge_text(chk, "Print(*args, sep, end) text", b, impl, orc, unhx(d["m"]), unhx(d["o"]), unhx(d["s"]))
+            ok &= judge_text(chk, "eval_format of Print(*args, sep, end).message", b, tbr, orc, unhx(d["tb"]), unhx(d["tb"]), unhx(d["s"]))
+            if not ok:
+                break
+        chk.distinct(("join", c["chunks"], tuple(c["argchunks"]), c["sep"], c["end"]),
+                     len(c["kinds"]) > 1 and any(kd.startswith(("empty", "format-of-empty")) for kd in c["kinds"]))
+        chk.sample({"print": c["repr"], "env": c["envs"][0], "text": c["impl"][0][1]}, limit=16)
+
+
 def run_flow(chk, quick):
     rng = chk.rng
     jobs = [(rng.getrandbits(48), 10, 3, 10) for _ in range(64 if quick else 1200)]
@@ -1525,7 +1733,7 @@ def run(chk):
     timing = chk.extra.setdefault("timing_s", {})
     # (the rerun stream comes last so that the random streams of the older ones are what they were)
     for name, fn in (("reject", run_reject), ("chunks", run_chunks), ("flow", run_flow), ("grid", run_grid), ("brace", run_brace),
-                     ("rerun", run_rerun)):
+                     ("rerun", run_rerun), ("join", run_join)):
         t0 = time.time()
         fn(chk, quick)
         timing[name] = round(time.time() - t0, 1)
@@ -1536,6 +1744,10 @@ def run(chk):
         "format() evaluated by the harness, the Lean Spec text and the Lean Model (compiled path repaired / as found, eval_format); "
         "(b) all short strings over the grammar's alphabet plus random and near-miss strings: accept / ValueError reason; "
         "(c) random Formats with literal braces, unicode, several fields with expression arguments, Print(sep=, end=), Assert messages; "
+        "(c') Print statements with 1..5 positional arguments (strings, Formats, values and expressions), arguments that format to "
+        "nothing ('', Format(''), Format('{}', '')) in first / middle / last position or everywhere, sep and end defaulted or given: "
+        "the text of every argument alone from the Lean Spec, joined by CPython's own print(*texts, sep=, end=) - the oracle - and "
+        "compared with the simulation's stdout and eval_format (and the Lean Model / Spec on the message amaranth built); "
         "(d) random Module-DSL programs (If/Elif/Else, Switch/Case/Default, nesting <= 3) with Prints, Asserts and Assumes in posedge / "
         "negedge domains without reset, with synchronous and with asynchronous reset, driven by random events (clock toggle, reset toggle, "
         "both at once, neither): text written at every event and the event / message at which Simulator.run() raises, compared with the "
@@ -1587,6 +1799,8 @@ def replay(chk, path):
         return common.EXIT_VIOLATION if bad else common.EXIT_OK
     if stream == "chunks":
         judge_chunks(chk, chunks_job(tuple(rep["job_args"])))
+    elif stream == "join":
+        judge_join(chk, join_job(tuple(rep["job_args"])))
     elif stream == "flow":
         judge_flow_job(chk, flow_job(tuple(rep["job_args"])))
     elif stream == "rerun":
@@ -1596,7 +1810,7 @@ def replay(chk, path):
         return common.EXIT_INFRA
     for summary, r in chk.violations:
         print("VIOLATION", summary[:300])
-        print("  ", {k: r[k] for k in ("format", "env", "event_index", "event", "prog", "run", "fragments", "outs", "pre_out") if k in r})
+        print("  ", {k: r[k] for k in ("format", "print", "env", "event_index", "event", "prog", "run", "fragments", "outs", "pre_out") if k in r})
     for what, _d in chk.unshown:
         print("NOT SHOWN", what)
     return common.EXIT_VIOLATION if (chk.violations or chk.unshown) else common.EXIT_OK
